@@ -129,7 +129,7 @@ class Bundler:
 
         def m_open(I_, o, a, k):
             me.open = True
-            me.uid = Opaque(I_.w.fresh("run_uid"), {"token": "run_uid", "truth": True})
+            me.uid = Opaque(I_.w.fresh("run_uid"), {"token": "run_uid", "truth": True, "isinstance_default": False, "hasattr_default": False})
             ev("open_run", me, a[0])
             return aio.Ready(me.uid)
 
